@@ -8,6 +8,7 @@ any extents including 0 and 1).  The literal corner tables are re-tabulated from
 import DarsiaModel.Grid
 import DarsiaGen.GridTables
 import DarsiaProofs.Grid
+import DarsiaProofs.FV
 namespace Darsia.C07
 open Darsia
 
@@ -134,6 +135,40 @@ theorem rev_conn_inverse (shape : List Nat) (a c f : Nat) (ha : a < shape.length
         rw [hd, getD_bump_self _ _ hlen]; omega
       rw [if_pos h1, hd, unbump_bump, faceNum_faceIdx shape f hf]
 
+/-- **The tables as the code builds them.** `connectivity` assembled the way `Grid._setup` does it — zeros, then per axis
+and column one assignment `connectivity[faces[a], side] = ravel(cell_index[shifted slice], "F")` (`connTable`) — is
+entry by entry the pointwise `conn`; so every statement about `conn` is a statement about the constructed array. -/
+theorem conn_table_eq (shape : List Nat) (f : Nat) (hf : f < numFaces shape) :
+    (connTable shape 0).length = numFaces shape ∧ (connTable shape 1).length = numFaces shape ∧
+    (connTable shape 0).getD f 0 = (conn shape f).1 ∧ (connTable shape 1).getD f 0 = (conn shape f).2 :=
+  ⟨connFold_length shape 0 _, connFold_length shape 1 _, (connTable_eq shape f hf).1, (connTable_eq shape f hf).2⟩
+
+/-- `reverse_connectivity[a]` assembled the way the code does it — all `-1`, then
+`rev[a, ravel(cell_index[1: along a]), 0] = faces[a]` and `rev[a, ravel(cell_index[:-1 along a]), 1] = faces[a]`
+(`revTable`) — is entry by entry the pointwise `rev`. -/
+theorem rev_table_eq (shape : List Nat) (a c : Nat) (ha : a < shape.length) (hc : c < numCells shape) :
+    (revTable shape a 0).getD c (-1) = rev shape a c 0 ∧ (revTable shape a 1).getD c (-1) = rev shape a c 1 :=
+  revTable_eq shape a c ha hc
+
+/-- hence the constructed cell-to-face table is the exact inverse of the constructed face-to-cell table -/
+theorem rev_table_inverse (shape : List Nat) (a c f : Nat) (ha : a < shape.length) (hc : c < numCells shape) :
+    ((revTable shape a 1).getD c (-1) = (f : Int) ↔
+      (f < numFaces shape ∧ faceAxis shape f = a ∧ (connTable shape 0).getD f 0 = c)) ∧
+    ((revTable shape a 0).getD c (-1) = (f : Int) ↔
+      (f < numFaces shape ∧ faceAxis shape f = a ∧ (connTable shape 1).getD f 0 = c)) := by
+  obtain ⟨r0, r1⟩ := revTable_eq shape a c ha hc
+  obtain ⟨i1, i0⟩ := rev_conn_inverse shape a c f ha hc
+  rw [r0, r1]
+  constructor
+  · rw [i1]
+    constructor
+    · rintro ⟨h1, h2, h3⟩; exact ⟨h1, h2, by rw [(connTable_eq shape f h1).1]; exact h3⟩
+    · rintro ⟨h1, h2, h3⟩; exact ⟨h1, h2, by rw [← (connTable_eq shape f h1).1]; exact h3⟩
+  · rw [i0]
+    constructor
+    · rintro ⟨h1, h2, h3⟩; exact ⟨h1, h2, by rw [(connTable_eq shape f h1).2]; exact h3⟩
+    · rintro ⟨h1, h2, h3⟩; exact ⟨h1, h2, by rw [← (connTable_eq shape f h1).2]; exact h3⟩
+
 /-- 'no face' (`-1`) is reported exactly on the outer boundary: below iff the cell is in the first layer along the
 axis, above iff it is in the last layer. -/
 theorem rev_none_iff_boundary (shape : List Nat) (a c : Nat) (ha : a < shape.length) (hc : c < numCells shape) :
@@ -237,6 +272,8 @@ example : numFaces [3, 2] = 7 ∧ conn [3, 2] 5 = (1, 4) ∧ rev [3, 2] 1 1 1 = 
     rev [3, 2] 0 0 0 = -1 := by decide
 example : interiorFaces [3, 4] 0 = [2, 3, 4, 5] ∧ exteriorFaces [3, 4] 0 = [0, 1, 6, 7] := by decide
 example : isInterior [3, 4] 0 [0, 1] = true ∧ inBox (fshape [3, 4] 0) [0, 1] = true := by decide
+example : connTable [3, 2] 0 = [0, 1, 3, 4, 0, 1, 2] ∧ connTable [3, 2] 1 = [1, 2, 4, 5, 3, 4, 5] ∧
+    revTable [3, 2] 1 0 = [-1, -1, -1, 4, 5, 6] := by decide
 /-- single-cell axes are covered: a 1×3 grid has faces only along axis 1 -/
 example : nfa [1, 3] 0 = 0 ∧ nfa [1, 3] 1 = 2 ∧ faceAxis [1, 3] 0 = 1 ∧ conn [1, 3] 1 = (1, 2) := by decide
 
